@@ -269,3 +269,42 @@ func ruleRejoiningReplicaHoldsEverythingCommitted(c *eng.Ctx) {
 		c.Check(g && len(has) > 0, "a replica re-enters the in-sync set only when it holds everything committed", c.Pos(e.(ssa.Instruction)), "expandISR() behind lastOffset >= log.HighWatermark()", "replicator.tick proposes to re-admit a replica without comparing its last reported offset with the high watermark ("+w.String()+"): what the leader committed alone while the replica was out is missing on it, it becomes electable, and after a fail-over an acknowledged message is gone")
 	}
 }
+
+// ruleCompactedSegmentsArePublishedAsTheyAreReplaced (R08.9, known finding K17): segment.Replace closes the old segment object
+// at once; the log's list still names it until the whole pass is over. A reader that positions or re-positions itself in that
+// window finds the closed object ("segment has been closed"): new subscriptions are refused and running ones end, for as long
+// as the pass runs — with compaction every non-active segment is rewritten. The repair publishes each replaced segment to the
+// list as soon as it is done; the rule asks that something reachable from the compaction pass writes commitLog.segments.
+func ruleCompactedSegmentsArePublishedAsTheyAreReplaced(c *eng.Ctx) {
+	p := c.P
+	pass := c.Fn(cl + "(*compactCleaner).compact")
+	if pass == nil {
+		return
+	}
+	segF := p.Field(clPkg, "commitLog", "segments")
+	reach := c.Reachable([]*ssa.Function{pass}, nil, false)
+	publishes := false
+	for _, a := range eng.StoresToField(p, segF, false) {
+		if reach[a.Fn] {
+			publishes = true
+		}
+	}
+	// ... or hands each replaced segment to a hook it was given (a function-typed field or parameter called with segments)
+	for f := range reach {
+		eng.Instrs(f, func(in ssa.Instruction) {
+			call, isCall := in.(*ssa.Call)
+			if !isCall || call.Call.IsInvoke() || call.Call.StaticCallee() != nil {
+				return
+			}
+			if _, isB := call.Call.Value.(*ssa.Builtin); isB {
+				return
+			}
+			for _, a := range call.Call.Args {
+				if strings.HasSuffix(a.Type().String(), "commitlog.segment") {
+					publishes = true
+				}
+			}
+		})
+	}
+	c.Check(publishes, "segments replaced by a compaction pass are swapped into the log's list as they are replaced", p.Pos(pass.Pos()), "the pass (or a callback it is given) updates commitLog.segments per replaced segment", "compactCleaner.compact replaces segments one by one — each Replace closes the old object — and nothing it reaches updates commitLog.segments: the list is swapped by Clean only when the whole pass is over")
+}
